@@ -39,7 +39,7 @@ fn chars_at(text: &str, r: &std::ops::Range<usize>) -> Option<String> {
 impl Prop for C19 {
     fn cases(&self, tier: Tier) -> u64 {
         match tier {
-            Tier::Quick => 80_000,
+            Tier::Quick => 240_000,
             Tier::Thorough => 3_000_000,
         }
     }
